@@ -425,3 +425,10 @@ def _executed(ip, a, kw):
 @spec("n_executed")
 def _n_executed(ip, a, kw):
     return PyC(len(getattr(ip.st, "exec_log", [])))
+
+
+@spec("sql_no_where")
+def _sql_no_where(ip, args, kw):
+    """The SELECT has no WHERE clause (every row of the table takes part) and no LIMIT."""
+    P, syms = _parse(ip, args[0])
+    return ZB(not P.where and P.limit is None)
